@@ -212,6 +212,34 @@ def t_traceback(rng):
                          "emit(debug.traceback('msg', 1))\n" % (d, d))
 
 
+def t_hooks(rng):
+    """debug hooks written in Lua (call / return / line / count events) that inspect the frames below them with
+    debug.getinfo at levels 1..3 and debug.traceback, around ordinary returns, tail calls, error unwinding and coroutine
+    switches: the hook runs at the very moment a continuation is handed back to the pools"""
+    mask = rng.choice(["r", "cr", "c", "crl", "r"])
+    count = rng.choice([0, 0, 3, 7])
+    n = rng.choice([1, 2, 5])
+    return "hooks", ("local events = {}\n"
+                     "local function name(i) if not i then return 'none' end return tostring(i.name) .. '@' .. tostring(i.currentline) .. '/' .. tostring(i.what) end\n"
+                     "local function hook(ev, line)\n"
+                     "  local i1, i2, i3 = debug.getinfo(1), debug.getinfo(2), debug.getinfo(3)\n"
+                     "  local e = ev .. ':' .. tostring(line) .. ':' .. name(i1) .. ':' .. name(i2) .. ':' .. name(i3)\n"
+                     "  if ev == 'return' or ev == 'tail call' then e = e .. ':' .. (debug.traceback('tb', 2):gsub('\\n', '|')) end\n"
+                     "  events[#events + 1] = e\nend\n"
+                     "local function leaf(x) local y = x + 1 return y end\n"
+                     "local function mid(x) local z = leaf(x) * 2 return z end\n"
+                     "local function top(x) return mid(x) end\n"
+                     "local function thrower(k) local a = k if k == 0 then error('bottom') end return thrower(k - 1) + a end\n"
+                     "local function gen(k) for i = 1, k do coroutine.yield(leaf(i)) end return 'fin' end\n"
+                     "local function work(k)\n  local s = top(k)\n  local ok, e = pcall(thrower, 2)\n"
+                     "  local w = coroutine.wrap(gen) s = s + w(2) + w()\n  return s, ok, e\nend\n"
+                     "local function flush(tag) emit(tag, #events) for i = 1, #events do emit(events[i]) end events = {} end\n"
+                     "debug.sethook(hook, '%s', %d)\nlocal r1, r2, r3 = work(%d)\ndebug.sethook()\nflush('main') emit(r1, r2, r3)\n"
+                     "local co = coroutine.create(function(x) local r = top(x) local ok = pcall(thrower, 1) return r, ok end)\n"
+                     "debug.sethook(co, hook, '%s')\nemit(coroutine.resume(co, %d))\ndebug.sethook(co)\nflush('co')\n"
+                     % (mask, count, n, rng.choice(["r", "cr"]), n))
+
+
 def gc_program(rng):
     """finalisers observed through emit, made deterministic by limited contexts (a context's finalisers run when it ends):
     tables with __gc created, re-marked (with / without __gc, nil), also across nested contexts; contexts ended normally,
@@ -234,8 +262,10 @@ def gc_program(rng):
                 live.append(v)
             elif r < 60 and live:
                 v = rng.choice(live)
-                how = rng.below(5)
-                if how < 3:
+                how = rng.below(6)
+                if how == 5:
+                    src.append("%ssetmetatable(%s, getmetatable(%s))" % (ind, v, v))     # same metatable: still a re-marking
+                elif how < 3:
                     src.append("%ssetmetatable(%s, fin('%s'))" % (ind, v, fresh("f")))
                 elif how == 3:
                     src.append("%ssetmetatable(%s, {})" % (ind, v))
@@ -279,7 +309,7 @@ def t_tbc_errors(rng):
                           "  emit(pcall(lost, i)) emit(busy(%d)) emit(pcall(lost2, i)) emit(xpcall(lost, debug.traceback, i)) emit(busy(7))\nend\n" % (n, b, b))
 
 
-TEMPLATES = [t_tbc_errors, t_traceback, t_close, t_reentrant, t_deep, t_tail, t_unwind, t_coro, t_closures, t_live, t_regsizes, t_varargs, t_gocalls]
+TEMPLATES = [t_hooks, t_tbc_errors, t_traceback, t_close, t_reentrant, t_deep, t_tail, t_unwind, t_coro, t_closures, t_live, t_regsizes, t_varargs, t_gocalls]
 
 
 def rand_program(rng):
@@ -506,8 +536,11 @@ def run(tier, seed):
         if status in ("CRASH", "HANG", "gopanic"):
             cross_fail += 1
             if cross_fail <= 3:
-                ck.violation("pool-stressing program crashes the default build: " + base[i][:200],
-                             {"kind": "Go!=S", "engine": "lua", "source": src, "default": base[i][:2000]})
+                others = {name: (outs[name][i][:600] if i < len(outs[name]) else "<missing>") for name in bins if name != "default"}
+                fine = sorted(n for n, o in others.items() if o.split(" ")[1:2] in (["ok"], ["error"]))
+                ck.violation("%s program: the default build ends with %s%s" % (kind, status, (" while " + ", ".join(fine) + " complete(s) normally") if fine else " (as do the other builds)"),
+                             {"kind": "Go!=S", "engine": "lua", "source": src, "default": base[i][:2000], "other_configurations": others,
+                              "theorems": THEOREMS})
             continue
         if "corrupt" in base[i] or "636f7272757074" in base[i]:
             cross_fail += 1
